@@ -165,11 +165,14 @@ SCORES = {
 
 
 def par(score):
-    """parallel (n_parallel given) version: reduce over the n_parallel axis too."""
-    return lambda x, s: jnp.sum(jnp.reshape(score(types.ModelInput(
-        types.PaddedArray.as_padded(jnp.reshape(x.continuous.padded_array, (-1, x.continuous.padded_array.shape[-1]))),
-        types.PaddedArray.as_padded(jnp.reshape(x.categorical.padded_array, (-1, x.categorical.padded_array.shape[-1])))), s),
-        x.continuous.padded_array.shape[:2]), axis=1)
+    """parallel (n_parallel given) version of a score function: the sum of the per-point scores of the n_parallel points."""
+    def f(x, s):
+        c, k = x.continuous.padded_array, x.categorical.padded_array
+        n, p = c.shape[0], c.shape[1]
+        flat = types.ModelInput(types.PaddedArray.as_padded(jnp.reshape(c, (n * p, c.shape[2]))),
+                                types.PaddedArray.as_padded(jnp.reshape(k, (n * p, k.shape[2]))))
+        return jnp.sum(jnp.reshape(score(flat, s), (n, p)), axis=1)
+    return f
 
 
 def check_result(res, conv, nc, cats, count, score, n_parallel, seed_key, allow_placeholder):
@@ -204,21 +207,33 @@ def check_result(res, conv, nc, cats, count, score, n_parallel, seed_key, allow_
 
 def battery(only=None):
     runs, violated = [], {}
+    quick = bool(only) and 'quick' in only
 
     def note(clause, inp):
         violated.setdefault(clause, inp)
 
     layouts = [(2, (3,), False), (0, (3, 2), False), (2, (), False), (3, (3, 2, 4), True), (3, (), True)]
-    for strat in ('eagle', 'random'):
-        for (nc, cats, pad) in layouts:
-            for sname in ('sphere', 'corner', 'nan_region', 'neginf'):
+    for strat in ('eagle', 'random', 'eagle[RANDOM]', 'eagle[UNNORMALIZED,MULTIPLICATIVE]'):
+        for (nc, cats, pad) in (layouts if '[' not in strat else layouts[:1]):
+            if quick and (nc, cats, pad) not in (layouts[0], layouts[1], layouts[3]):
+                continue
+            for sname in (('sphere', 'neginf') if quick else ('sphere', 'corner', 'nan_region', 'neginf')):
                 if nc == 0 and sname in ('nan_region',):
                     continue
                 for n_parallel in (None, 2):
                     if n_parallel and sname != 'sphere':
                         continue
                     conv = make_converter(nc, cats, pad)
-                    fac = es.VectorizedEagleStrategyFactory() if strat == 'eagle' else rvo.random_strategy_factory
+                    if strat == 'eagle':
+                        fac = es.VectorizedEagleStrategyFactory()
+                    elif strat == 'random':
+                        fac = rvo.random_strategy_factory
+                    elif strat == 'eagle[RANDOM]':
+                        fac = es.VectorizedEagleStrategyFactory(eagle_config=es.EagleStrategyConfig(mutate_normalization_type=es.MutateNormalizationType.RANDOM))
+                    else:
+                        fac = es.VectorizedEagleStrategyFactory(eagle_config=es.EagleStrategyConfig(
+                            mutate_normalization_type=es.MutateNormalizationType.UNNORMALIZED,
+                            continuous_feature_perturbation_type=es.ContinuousFeaturePerturbationType.MULTIPLICATIVE))
                     score = SCORES[sname] if n_parallel is None else par(SCORES[sname])
                     inp = {'strategy': strat, 'n_continuous': nc, 'categories': list(cats), 'feature_padding': pad, 'score': sname,
                            'n_parallel': n_parallel, 'count': 3, 'max_evaluations': 60, 'suggestion_batch_size': 5, 'seed': 1}
